@@ -812,10 +812,16 @@ pub fn rustc_stage(base_seed: u64, stage: &Stage, workers: usize) -> Result<(Vec
     }
     let mut lib = String::from("#![allow(warnings)]\n");
     let mut index_to_seed: BTreeMap<u64, u64> = BTreeMap::new();
+    // modules in which a generated item shadows a std prelude name (the
+    // repository's rust-collisions.json fixture defines `String`, `Vec`, ...)
+    let mut shadowing: BTreeSet<u64> = BTreeSet::new();
     let mut n = 0usize;
     for s in &res {
         if let Some(out) = &s.output {
             std::fs::write(dir.join(format!("src/m{}.rs", s.index)), out).map_err(|e| e.to_string())?;
+            if shadows_std_prelude(out) {
+                shadowing.insert(s.seed);
+            }
             lib.push_str(&format!("pub mod m{};\n", s.index));
             index_to_seed.insert(s.index, s.seed);
             n += 1;
@@ -851,7 +857,12 @@ pub fn rustc_stage(base_seed: u64, stage: &Stage, workers: usize) -> Result<(Vec
                         seed,
                         Violation {
                             invariant: "I11".into(),
-                            key: format!("rustc:{code}:{}", normalise_rustc_message(&text)),
+                            key: if shadowing.contains(&seed) {
+                                // one family: unqualified std names in generated code resolve to the user's type
+                                format!("rustc:std-name-shadowed:{code}")
+                            } else {
+                                format!("rustc:{code}:{}", normalise_rustc_message(&text))
+                            },
                             step: 0,
                             observed: format!("rustc rejects the final output of the session: error[{code}]: {text}"),
                             expected: "the emitted module type-checks against serde, serde_json, chrono, uuid, regress".into(),
@@ -875,6 +886,19 @@ pub fn rustc_stage(base_seed: u64, stage: &Stage, workers: usize) -> Result<(Vec
     }
     let _ = std::fs::remove_dir_all(&dir);
     Ok((found, n, t0.elapsed().as_secs_f64()))
+}
+
+/// Does the module define an item whose name is a std prelude type/trait?
+pub fn shadows_std_prelude(module: &str) -> bool {
+    const NAMES: &[&str] = &["String", "Vec", "Option", "Box", "Result", "Default", "From", "Into", "Clone", "ToString", "Iterator"];
+    for n in NAMES {
+        for kw in ["struct", "enum", "type"] {
+            if module.contains(&format!("pub {kw} {n} ")) || module.contains(&format!("pub {kw} {n}(")) || module.contains(&format!("pub {kw} {n}<")) {
+                return true;
+            }
+        }
+    }
+    false
 }
 
 /// Error text with generated names abstracted, so that the finding key names
@@ -953,7 +977,7 @@ pub fn rustc_replay(r: &ReplayFile) -> i32 {
     match o {
         Ok(o) => {
             let err = String::from_utf8_lossy(&o.stderr).to_string();
-            let code = r.finding_key.trim_start_matches("rustc:").split(':').next().unwrap_or("");
+            let code = r.finding_key.trim_start_matches("rustc:").trim_start_matches("std-name-shadowed:").split(':').next().unwrap_or("");
             if err.contains(&format!("error[{code}]")) || (code == "no-code" && err.contains("error")) {
                 for l in err.lines().filter(|l| l.contains("error")).take(5) {
                     println!("  {l}");
